@@ -301,7 +301,7 @@ func sqliteCleanup() {
 func runScenario(ctx context.Context, w *rec.Writer, r *rec.Rand, s *scen.Scenario, ro *runOpts) {
 	if ro.Backend == "" {
 		ro.Backend = "memory"
-		if r.Chance(1, 8) {
+		if r.Chance(1, 10) {
 			ro.Backend = "sqlite"
 		}
 	}
